@@ -14,15 +14,31 @@ _T = "GoaktVerif.C04."
 THEOREMS = [_T + t for t in [
     "C04_refuted",
     "F2_unbounded_reports_empty_behind_inflight",
-    "F3_fair_strands_sender",
-    "F4_bounded_priority_rejects_when_not_full",
-    "F5_segmented_recycled_segment",
-    "F6_uprio_reports_empty",
-    "F7_segmented_skips_late_slots",
-    "F8_segmented_retired_segment_relinked",
+    "F3_fixed_fair_serves_sender",
+    "F4_fixed_bounded_priority_accepts_when_not_full",
+    "F5_fixed_segmented_no_recycling",
+    "F6_fixed_uprio_counts_inside_lock",
+    "F7_fixed_segmented_no_skip",
+    "F8_fixed_segmented_no_relink",
     "C04_spec_fifo",
     "rq_run_conserve",
     "rq_deq_none",
+    "unbounded_forward_simulation",
+    "unbounded_linearizable",
+    "unbounded_dequeued_nodup",
+    "C04_empty_sound_partial",
+    "unbounded_recycled_not_aliased",
+    "wellFormed_hyp",
+    "uprio_priority_order",
+    "intake_priority_order",
+    "stable_priority_then_arrival",
+    "bounded_priority_capacity",
+    "heap_all_sequences",
+    "Heap.push_inv",
+    "Heap.pop_inv",
+    "Heap.pop_min",
+    "Heap.pop_perm",
+    "Heap.push_perm",
 ]]
 INPKG = ["actor/zz_verif_mbox.go", "actor/zz_verif_c04.go"]
 INSTRUMENT = [
@@ -42,18 +58,17 @@ SITES = {
     _A + "unbounded_mailbox.go:UnboundedMailbox.Dequeue": ["Load:head", "Load:next", "Store:head", "Store:next"],
     _A + "unbounded_mailbox.go:UnboundedMailbox.IsEmpty": ["Load:head", "Load:next"],
     _A + "unbounded_mailbox.go:UnboundedMailbox.Len": ["Load:head", "Load:next", "Load:next"],
-    _A + "unbounded_segmented_mailbox.go:newSegment": ["Store:writeIdx", "Store:deqIdx", "Store:next", "Store:data"],
     _A + "unbounded_segmented_mailbox.go:UnboundedSegmentedMailbox.Enqueue":
         ["Load:tail", "Add:writeIdx", "Store:data", "Add:length", "Load:next", "CAS:tail", "CAS:next", "CAS:tail"],
     _A + "unbounded_segmented_mailbox.go:UnboundedSegmentedMailbox.Dequeue":
         ["Load:head", "Load:writeIdx", "Load:deqIdx", "Load:data", "Store:data", "Store:deqIdx", "Add:length",
-         "Load:next", "Store:head", "Store:next"],
+         "Load:next", "Store:head"],
     _A + "unbounded_segmented_mailbox.go:UnboundedSegmentedMailbox.IsEmpty": ["Load:head", "Load:writeIdx", "Load:deqIdx", "Load:next"],
     _A + "unbounded_segmented_mailbox.go:UnboundedSegmentedMailbox.Len": ["Load:length"],
     _A + "unbounded_fair_mailbox.go:activeSenders.enqueue": ["Store:value", "Store:next", "Swap:tail", "Store:next"],
     _A + "unbounded_fair_mailbox.go:activeSenders.dequeue": ["Load:head", "Load:next", "Store:head", "Load:value", "Store:next", "Store:value"],
     _A + "unbounded_fair_mailbox.go:UnboundedFairMailbox.Enqueue": ["Add:length", "CAS:active", "Add:pending"],
-    _A + "unbounded_fair_mailbox.go:UnboundedFairMailbox.Dequeue": ["Store:active", "Add:length", "Add:pending"],
+    _A + "unbounded_fair_mailbox.go:UnboundedFairMailbox.Dequeue": ["Store:active", "Load:length", "Load:pending", "CAS:active", "Add:length", "Add:pending"],
     _A + "unbounded_fair_mailbox.go:UnboundedFairMailbox.finalizeSender": ["Store:pending", "Store:active", "Load:pending", "CAS:active"],
     _A + "unbounded_fair_mailbox.go:UnboundedFairMailbox.IsEmpty": ["Load:length"],
     _A + "unbounded_fair_mailbox.go:UnboundedFairMailbox.Len": ["Load:length"],
@@ -63,10 +78,10 @@ SITES = {
     _A + "unbounded_stable_priority_mailbox.go:UnboundedStablePriorityMailbox.Enqueue": ["Add:length"],
     _A + "unbounded_stable_priority_mailbox.go:UnboundedStablePriorityMailbox.Dequeue": ["Load:length", "Add:length"],
     _A + "unbounded_stable_priority_mailbox.go:UnboundedStablePriorityMailbox.Len": ["Load:length"],
-    _A + "bounded_priority_mailbox.go:BoundedPriorityMailbox.Enqueue": ["Add:length", "Add:length"],
+    _A + "bounded_priority_mailbox.go:BoundedPriorityMailbox.Enqueue": ["Load:length", "CAS:length"],
     _A + "bounded_priority_mailbox.go:BoundedPriorityMailbox.Dequeue": ["Load:length", "Add:length"],
     _A + "bounded_priority_mailbox.go:BoundedPriorityMailbox.Len": ["Load:length"],
-    _A + "bounded_stable_priority_mailbox.go:BoundedStablePriorityMailbox.Enqueue": ["Add:length", "Add:length"],
+    _A + "bounded_stable_priority_mailbox.go:BoundedStablePriorityMailbox.Enqueue": ["Load:length", "CAS:length"],
     _A + "bounded_stable_priority_mailbox.go:BoundedStablePriorityMailbox.Dequeue": ["Load:length", "Add:length"],
     _A + "bounded_stable_priority_mailbox.go:BoundedStablePriorityMailbox.Len": ["Load:length"],
     _A + "non_blocking_bounded_mailbox.go:NonBlockingBoundedMailbox.Enqueue":
@@ -82,8 +97,8 @@ SITES = {
 JUDGE = True
 TIMEOUT = 900
 MANIFEST = {
-    "level_text": "All nine mailbox algorithms are modelled in Lean at atomic-operation granularity (one transition per sync/atomic site of the Go code, labels as emitted by yieldinject) and tied to /repo by controlled-schedule replay: same step labels, same results with real-time stamps, same final drain. Kernel-checked: the full property C04_full (history oracle over all mailboxes, programs and schedules) is REFUTED (C04_refuted) with seven witness theorems F2..F8, each replayed on the real code (corpus/C04); the reservation-queue specification is FIFO in reservation order and exactly-once for all event sequences (C04_spec_fifo, rq_run_conserve).",
-    "level_note": "Partial: the simulation theorems from the mailbox models to the specification are work in progress (see design/C04.md for what is proved and what is only modelled and tied). BoundedMailbox (third-party Workiva ring buffer) is a black-box parameter, tied sequentially only. sync.Pool is pinned to one P without GC in the harness and modelled as private slot + LIFO. Counter wrap-around at 2^64 is not modelled.",
+    "level_text": "All nine mailbox algorithms are modelled in Lean at atomic-operation granularity (one transition per sync/atomic site of the Go code, labels as emitted by yieldinject) and tied to /repo by controlled-schedule replay: same step labels, same results with real-time stamps, same final drain. Kernel-checked: the full property C04_full (history oracle over all mailboxes, programs and schedules) is REFUTED (C04_refuted) by the witness F2 (Vyukov window, inherent), replayed on the real code (corpus/C04); six further defects F3..F8 found by this check were repaired in /repo (fix: commits) and their witness schedules are kept as regression tests on model and code; the reservation-queue specification is FIFO in reservation order and exactly-once for all event sequences (C04_spec_fifo, rq_run_conserve). UnboundedMailbox (the default mailbox, Vyukov MPSC list): forward simulation from the small-step model to the reservation queue for ALL schedules, any number of producers, one consumer (unbounded_forward_simulation, inductive invariant UB.Inv); corollaries for every run (unbounded_linearizable): values returned by Dequeue = the successful dequeues of the specification run = a prefix of the reservation sequence, which never repeats; accepted messages are dequeued or READY (never lost); the recycled sentinel is referenced by nobody (unbounded_recycled_not_aliased); empty-soundness under the guard 'no enqueue between reserve and publish' (C04_empty_sound_partial). Priority mailboxes: container/heap = stableHeap refines a priority queue for all operation sequences and an arbitrary strict weak order (Heap.push_inv/pop_inv/pop_min/pop_perm, heap_all_sequences); heap order is an invariant of every reachable configuration of all four priority mailbox models, so every removal takes a minimum (uprio_priority_order, intake_priority_order), priority-then-arrival for the stable variants (stable_priority_then_arrival); the bounded variants' counter never exceeds the capacity (bounded_priority_capacity).",
+    "level_note": "Partial: the simulation to the reservation queue is proved for UnboundedMailbox; for the priority mailboxes the heap refinement and capacity invariant are proved but not the intake (Treiber stack) exactly-once argument; ring, segmented and fair mailboxes are modelled and tied, not proved (design/C04.md). BoundedMailbox (third-party Workiva ring buffer) is a black-box parameter, tied sequentially only. sync.Pool is pinned to one P without GC in the harness and modelled as private slot + LIFO. Counter wrap-around at 2^64 is not modelled.",
     "technique": "Lean 4 small-step models + controlled-schedule differential (cooperative scheduler injected at every atomic operation) + history oracle with real-time intervals",
 }
 TRUSTED = [
@@ -506,65 +521,12 @@ def oracle(case, impl, judge):
     return fails[0] if fails else None
 
 
-def _steps(impl):
-    """[(tid, label)] of the executed steps (entries for finished threads dropped)"""
-    out = []
-    for t in impl.split("|")[0].split()[1:]:
-        if ":" in t and "!" not in t:
-            a, b = t.split(":", 1)
-            out.append((int(a), b))
-    return out
-
-
-def _windows(steps, tid_pred, first, last, stop=None):
-    """index pairs (i, j): step i is `first` by a thread t accepted by tid_pred, j is t's next `last`
-    (with no other `first` of t in between)"""
-    res = []
-    for i, (t, l) in enumerate(steps):
-        if l != first or not tid_pred(t):
-            continue
-        for j in range(i + 1, len(steps)):
-            t2, l2 = steps[j]
-            if t2 != t:
-                continue
-            if l2 == last:
-                res.append((i, j, t))
-                break
-            if l2 == first:
-                break
-    return res
-
-
-def _seg_reserve_index(steps, progs):
-    """segmented mailbox, pure-enqueue producers: message id -> index of the `Add:writeIdx` step that
-    reserved the slot it was stored into (None when a producer program also holds other operations)"""
-    res = {}
-    for tid, prog in enumerate(progs):
-        if not prog or any(not (op.startswith("e") and op != "emp") for op in prog):
-            continue
-        k, last_add = 0, None
-        for idx, (t, l) in enumerate(steps):
-            if t != tid:
-                continue
-            if l == "Add:writeIdx":
-                last_add = idx
-            elif l == "Add:length":
-                if k < len(prog):
-                    res[int(prog[k][1:].split("@")[0])] = last_add
-                k += 1
-    return res
-
-
 def classify(case, impl, why):
-    """map an oracle failure to a known finding id — exact signatures only"""
+    """map an oracle failure to a known finding id — exact signature only.
+    (F3..F8 are repaired in /repo; their signatures were removed so that a regression is a VIOLATION.)"""
     if not why or not impl:
         return None
     kind = case.split("|")[0].split()[0]
-    progs = [p.split() for p in case.split("|")[1].split(";")]
-    p = parse(case, impl)
-    if isinstance(p, str):
-        return None
-    evs = p[2]
     if why.startswith("empty-unsound"):
         m = re.search(r"inflight=(\d+)", why)
         infl = int(m.group(1)) if m else 0
@@ -572,72 +534,6 @@ def classify(case, impl, why):
         # IsEmpty is affected only where it follows the links (unbounded)
         if infl >= 1 and kind in VYUKOV_TYPES and ("Dequeue=nil" in why or kind == "unbounded"):
             return "C04-F2"
-        # C04-F6: UnboundedPriorityMailBox counts a message only after the critical section: when the
-        # operation read `length`, some enqueue had pushed (Lock:lock done) but not yet counted (Add:length)
-        if kind == "uprio":
-            m = re.search(r"at (\d+)-(\d+)", why)
-            x = next((e for e in evs if m and e.s == int(m.group(1)) and e.e == int(m.group(2))), None)
-            if x is not None:
-                nth = sum(1 for e in evs if e.tid == x.tid and e.kind != "enq" and e.s <= x.s)  # x is the nth Load:length of its thread
-                steps = _steps(impl)
-                seen = 0
-                pushed = {}
-                for (t, l) in steps:
-                    if t == x.tid and l == "Load:length":
-                        seen += 1
-                        if seen == nth:
-                            break
-                    enq_thread = any(op.startswith("e") and op != "emp" for op in progs[t])
-                    if l == "Lock:lock" and t != x.tid and enq_thread:
-                        pushed[t] = pushed.get(t, 0) + 1
-                    if l == "Add:length" and t != x.tid and enq_thread:
-                        pushed[t] = pushed.get(t, 0) - 1
-                if any(v > 0 for v in pushed.values()):
-                    return "C04-F6"
-    if why.startswith("lost") and kind == "fair":
-        # C04-F3: stranded sender: messages still counted by Len() but never served, two threads on one sender key
-        m = re.search(r"ids=\[([^\]]*)\] finallen=(-?\d+)", why)
-        if m:
-            ids = [int(x) for x in m.group(1).split(",") if x.strip()]
-            enq = {e.id: e for e in evs if e.kind == "enq"}
-            keys = {enq[i].key for i in ids if i in enq}
-            shared = all(len({e.tid for e in evs if e.kind == "enq" and e.key == k}) >= 2 for k in keys)
-            if int(m.group(2)) == len(ids) and shared:
-                return "C04-F3"
-    if why.startswith("spurious-full") and kind in ("bprio", "bsprio"):
-        # C04-F4: the transient +1 of a concurrently failing Enqueue makes another Enqueue fail
-        m = re.search(r"overlapping-rejected=(\d+)", why)
-        if m and int(m.group(1)) >= 1:
-            return "C04-F4"
-    if why.startswith("lost") and kind == "segmented":
-        m = re.search(r"ids=\[([^\]]*)\]", why)
-        ids = [int(x) for x in m.group(1).split(",") if x.strip()] if m else []
-        steps = _steps(impl)
-        res = _seg_reserve_index(steps, progs)
-        if ids and all(res.get(i) is not None for i in ids):
-            consumer = lambda t: "d" in progs[t]
-            producer = lambda t: not consumer(t)
-            # C04-F7: the consumer read writeIdx, then (later) found next != nil and advanced: every slot
-            # reserved in between is skipped
-            stale = _windows(steps, consumer, "Load:writeIdx", "Store:head")
-            f7 = {x for x in ids if any(i < res[x] < j for (i, j, _) in stale)}
-            # C04-F5: a producer with a stale tail pointer reserved a slot of a recycled segment while
-            # another producer was resetting it in newSegment (the slot is wiped; the queue stays wedged
-            # behind it, so everything reserved later is stranded as well)
-            reset = _windows(steps, producer, "Store:writeIdx", "CAS:next")
-            wiped = [res[x] for x in ids if any(i < res[x] < j and steps[res[x]][0] != t for (i, j, t) in reset)]
-            f5 = {x for x in ids if wiped and res[x] >= min(wiped)}
-            # C04-F8: the consumer retired a segment (Store:next nil, pool.Put) while a producer was still
-            # inside newSegment for that tail; the producer then links its segment behind the retired one
-            # and moves tail there: everything reserved afterwards is unreachable from head
-            retire = [i for i, (t, l) in enumerate(steps) if consumer(t) and l == "Store:next"]
-            split = [j for (i, j, _) in reset if any(i < r < j for r in retire)]
-            f8 = {x for x in ids if split and res[x] > min(split)}
-            # every lost message must be explained by one of the three families; the run is filed under
-            # the family of the first lost message
-            if all(x in f7 or x in f5 or x in f8 for x in ids):
-                x = ids[0]
-                return "C04-F7" if x in f7 else ("C04-F5" if x in f5 else "C04-F8")
     return None
 
 
